@@ -224,7 +224,10 @@ Definition blsg1_dec_u (c : wcodec) (bs : list Z) : option wpt :=
   else match bs with
        | [] => None
        | b0 :: r =>
-           if flagI b0 =? 1 then Some None                        (* nothing else is looked at *)
+           if flagC b0 =? 1 then None
+           else if flagS b0 =? 1 then None
+           else if flagI b0 =? 1 then
+             if (b0 mod 32 =? 0) && all_zero r then Some None else None
            else
              let x := be_val ((b0 mod 32) :: firstn (wc_len c - 1) r) mod wc_p c in
              let y := be_val (skipn (wc_len c - 1) r) mod wc_p c in
@@ -240,7 +243,16 @@ Definition blsg1_enc_u (c : wcodec) (P : wpt) : list Z :=
   | Some (x, y) => be_enc (wc_len c) x ++ be_enc (wc_len c) y
   end.
 
-(* G1.FromAffine checks the subgroup, G1.FromAffineX does not *)
+(* G1.FromAffine and G1.FromAffineX check the subgroup *)
+Definition blsg1_from_affine_x (c : wcodec) (x : Z) (odd : bool) : option wpt :=
+  match wc_sqrt c (wc_rhs c x) with
+  | None => None
+  | Some y =>
+      if w_torsion_free c (Some (x, y)) then
+        Some (Some (x, if y mod 2 =? (if odd then 1 else 0) then y else negm (wc_p c) y))
+      else None
+  end.
+
 Definition blsg1_from_affine (c : wcodec) (x y : Z) : option wpt :=
   match w_set_affine c x y with
   | None => None
@@ -325,11 +337,13 @@ Definition x_affine_u (c : ecodec) (P : ept) : option Z :=
   let w := subm p (1 mod p) y in
   if w =? 0 then None else Some (mulm p (addm p (1 mod p) y) (zp_inv p w)).
 
-(* Point.AffineY: cst * (Z+Y)/(X-T) ; error when X = T *)
+(* Point.AffineY: cst * (Z+Y)/(X-T) ; when X = T: 0 for the point of order two (Z+Y = 0),
+   an error for the identity *)
 Definition x_affine_v (c : ecodec) (cst : Z) (P : ept) : option Z :=
   let p := ec_p c in let '(x, y) := P in
   let w := subm p x (mulm p x y) in
-  if w =? 0 then None else Some (mulm p (mulm p (addm p (1 mod p) y) (zp_inv p w)) cst).
+  if w =? 0 then (if addm p (1 mod p) y =? 0 then Some 0 else None)
+  else Some (mulm p (mulm p (addm p (1 mod p) y) (zp_inv p w)) cst).
 
 Definition e_is_identity (c : ecodec) (P : ept) : bool :=
   let '(x, y) := P in (x =? 0) && (y =? 1 mod ec_p c).
